@@ -20,14 +20,22 @@ for sid in sorted(os.listdir(os.path.join(VERIF, "seeded"))):
     if not meta.get("confirmed"):
         continue
     patch = os.path.join(d, "patch.diff")
-    r = subprocess.run(["git", "-C", "/repo", "apply", patch], capture_output=True, text=True)
     how = "apply"
+    if os.path.exists(os.path.join(d, "patch.rebased.diff")):
+        patch = os.path.join(d, "patch.rebased.diff")
+        how = "apply (rebased onto the fixed tree)"
+    r = subprocess.run(["git", "-C", "/repo", "apply", patch], capture_output=True, text=True)
     if r.returncode:
+        subprocess.run("git -C /repo reset -q --hard HEAD", shell=True)
         r = subprocess.run(["git", "-C", "/repo", "apply", "--3way", patch], capture_output=True, text=True)
         how = "apply --3way"
+        st = subprocess.run("git -C /repo diff --name-only --diff-filter=U", shell=True, capture_output=True, text=True).stdout.strip()
+        if st:
+            r.returncode = 1
+            r.stderr = "conflicts in " + st
     if r.returncode:
         res[sid] = {"applied": False, "why": r.stderr[-300:]}
-        subprocess.run("git -C /repo checkout -- . ; git -C /repo reset -q", shell=True)
+        subprocess.run("git -C /repo reset -q --hard HEAD", shell=True)
         print(sid, "PATCH DOES NOT APPLY")
         continue
     try:
@@ -47,5 +55,5 @@ for sid in sorted(os.listdir(os.path.join(VERIF, "seeded"))):
             for l in v[:1]:
                 print("     ", k, l[:200])
     finally:
-        subprocess.run("git -C /repo checkout -- . ; git -C /repo reset -q", shell=True)
+        subprocess.run("git -C /repo reset -q --hard HEAD", shell=True)
 json.dump(res, open(os.path.join(VERIF, "seeded", "results.json"), "w"), indent=1)
